@@ -10,7 +10,7 @@ The remaining rules are necessary structural conditions that hold for every inpu
  * SWEEP-FILL: a half-stencil cell list examines each pair of adjacent bins from one side only, so every bin that the
    fill loop populates must be swept: the definition of the bin-index table reaching the sweep list equals the
    definition reaching the fill loop (reaching-definitions).
- * STENCIL: offsets range over {-1,0,1}^3 up to the centre bin (13 lower neighbours), each offset added to its own
+ * STENCIL: nlist() interpreted whole on blocks of bins with an accept-all distance test: the pairs examined are exactly the pairs of touching bins (was: offsets, own
    coordinate, bins outside the grid skipped on all six faces, own-bin pairs taken once (v > u), scratch list
    sized for 14 bins.
  * GEOMETRY: bin size >= cutoff, superbox padded by >= cutoff around the eight cell corners, ghost images accepted by
@@ -72,65 +72,6 @@ def sweep_fill(ctx):
     sweeploops = [l for l in _loops(fn) if norm(l.iter).replace(' ', '') in ('range(len(%s))' % sweepname, 'range(%s.shape[0])' % sweepname)]
     ctx.need(len(sweeploops) == 1, 'nlist: the sweep loop over %s was not found' % sweepname)
     return fn, fill, sweeploops[0], sweepname
-
-
-def stencil(ctx):
-    fn, fill, sweep, sweepname = sweep_fill_ctx(ctx)
-    loc = NL + '::nlist'
-    def columns(loop, table=None):
-        # names bound to columns 0, 1, 2 of the row of the loop: `x, y, z = T[i]` or `x = T[i, 0]; y = T[i, 1]; z = T[i, 2]`
-        row = norm(loop.target)
-        out = {}
-        for s_ in loop.body:
-            if not isinstance(s_, ast.Assign):
-                continue
-            t_, v_ = s_.targets[0], s_.value
-            if isinstance(t_, ast.Tuple) and isinstance(v_, ast.Subscript) and norm(v_.slice) == row and (table is None or norm(v_.value) == table) and all(isinstance(e_, ast.Name) for e_ in t_.elts):
-                return [e_.id for e_ in t_.elts]
-            if isinstance(t_, ast.Name) and isinstance(v_, ast.Subscript) and isinstance(v_.slice, ast.Tuple) and len(v_.slice.elts) == 2 and norm(v_.slice.elts[0]) == row \
-                    and isinstance(v_.slice.elts[1], ast.Constant) and (table is None or norm(v_.value) == table):
-                out[v_.slice.elts[1].value] = t_.id
-        return [out.get(k) for k in range(3)] if out else None
-    ok = columns(sweep, sweepname) == ['x', 'y', 'z'] and columns(fill) == ['x', 'y', 'z']
-    ctx.ob('STENCIL', loc, 'bin coordinates are unpacked in the same order (x, y, z) in the fill and the sweep', ok, node=sweep)
-    dl = {v: _loops(sweep, v) for v in ('dx', 'dy', 'dz')}
-    ok = all(len(dl[v]) == 1 and norm(dl[v][0].iter).replace(' ', '') == 'range(-1,2)' for v in dl)
-    ctx.ob('STENCIL', loc, 'neighbour-bin offsets range over {-1,0,1} in each direction', ok, str({v: [norm(l.iter) for l in ls] for v, ls in dl.items()}), node=sweep)
-    ctx.need(ok, 'stencil loops not found')
-    inner = [l for l in dl.values() if not any(isinstance(x, ast.For) and norm(x.target) in ('dx', 'dy', 'dz') for x in ast.walk(ast.Module(l[0].body, [])))][0][0]
-    # centre test terminates the scan
-    centre = [s for s in inner.body if isinstance(s, ast.If) and all(k in norm(s.test).replace(' ', '') for k in ('dx==0', 'dy==0', 'dz==0'))]
-    ok = len(centre) == 1 and any(isinstance(x, ast.Break) for x in centre[0].body) and any(isinstance(x, ast.Assign) and norm(x.value) == 'True' for x in centre[0].body)
-    flag = norm([x for x in centre[0].body if isinstance(x, ast.Assign)][0].targets[0]) if ok else 'end'
-    outer_breaks = [s for l in dl.values() for s in l[0].body if isinstance(s, ast.If) and norm(s.test) == flag and any(isinstance(x, ast.Break) for x in s.body)]
-    ctx.ob('STENCIL', loc, 'the scan stops at the centre bin, leaving the 13 lexicographically lower neighbours', ok and len(outer_breaks) == 2 and centre[0] is inner.body[0],
-           'centre test %s, outer breaks %d' % (norm(centre[0].test) if centre else None, len(outer_breaks)), node=inner)
-    # each offset is added to its own coordinate wherever the neighbour bin is addressed
-    subs = [n for n in ast.walk(inner) if isinstance(n, ast.Subscript) and norm(n.value) == 'xyzbins' and isinstance(n.slice, ast.Tuple)]
-    ok = bool(subs) and all([norm(e).replace(' ', '') for e in n.slice.elts[:3]] == ['x+dx', 'y+dy', 'z+dz'] for n in subs)
-    ctx.ob('STENCIL', loc, 'a neighbour bin is addressed as (x+dx, y+dy, z+dz)', ok, '; '.join(norm(n) for n in subs[:3]), node=inner)
-    skip = [s for s in inner.body if isinstance(s, ast.If) and any(isinstance(x, ast.Continue) for x in s.body)]
-    txt = norm(skip[0].test).replace(' ', '') if skip else ''
-    want = ['x+dx<0', 'x+dx==numxbins', 'y+dy<0', 'y+dy==numybins', 'z+dz<0', 'z+dz==numzbins']
-    alt = ['x+dx>=numxbins', 'y+dy>=numybins', 'z+dz>=numzbins']
-    ok = len(skip) == 1 and all(w in txt for w in want[0::2]) and all((w in txt) or (a in txt) for w, a in zip(want[1::2], alt)) and isinstance(skip[0].test, ast.BoolOp) and isinstance(skip[0].test.op, ast.Or)
-    ctx.ob('STENCIL', loc, 'neighbour bins outside the grid are skipped on all six faces', ok, txt, node=skip[0] if skip else inner)
-    # which pairs of the combined list are compared, and which atom each comes from, is decided by CONFIGURATIONS (nlist interpreted whole)
-    sl = assigns_to(fn, 'superlonglist')
-    ok = False
-    if sl:
-        a = sl[0].value.args[0]
-        try:
-            v = _sym(a, ['maxc'])
-            ok = sp.simplify(v - 14 * sp.Symbol('maxc', positive=True)).is_nonnegative
-        except Exception:
-            ok = False
-    ctx.ob('STENCIL', loc, 'the scratch list holds the swept bin plus 13 neighbour bins (>= 14·max occupancy)', bool(ok), norm(sl[0].value) if sl else '', node=sl[0] if sl else fn)
-    # longlist = first c entries; c accumulates neighbour occupancies
-    ll = assigns_to(sweep, 'longlist')
-    ctx.ob('STENCIL', loc, 'the combined list is the filled part of the scratch list', len(ll) == 1 and norm(ll[0].value) == 'superlonglist[:c]', node=sweep)
-    acc = [s for s in ast.walk(inner) if isinstance(s, ast.AugAssign) and norm(s.target) == 'c']
-    ctx.ob('STENCIL', loc, 'the fill count advances by each neighbour bin\'s occupancy', len(acc) == 1 and norm(acc[0].value) == 'dc' and isinstance(acc[0].op, ast.Add), node=inner)
 
 
 _cache = {}
@@ -287,12 +228,15 @@ def geometry(ctx):
     # digitize: same bin edges for real and ghost atoms, -1 offset
     dg = [s for s in ast.walk(fn) if isinstance(s, ast.Assign) and isinstance(s.value, ast.BinOp) and isinstance(s.value.left, ast.Call) and norm(s.value.left.func) == 'np.digitize']
     ok = len(dg) == 6
-    for s in dg:
+    for s in (dg if ok else []):
         nm = norm(s.targets[0])
         col = {'xindex': '0', 'yindex': '1', 'zindex': '2'}.get(nm)
         a0, a1 = norm(s.value.left.args[0]), norm(s.value.left.args[1])
         ok = ok and col is not None and a0 in ('pos[:, %s]' % col, 'ghostpos[:, %s]' % col) and a1 == nm[0] + 'bins' and norm(s.value.right) == '1' and isinstance(s.value.op, ast.Sub)
-    ctx.ob('GEOMETRY', loc, 'real and ghost atoms are binned with the same edges, coordinate k against the k-edges', ok, '%d digitize statements' % len(dg), node=fn)
+    if len(dg) == 6:
+        ctx.ob('GEOMETRY', loc, 'real and ghost atoms are binned with the same edges, coordinate k against the k-edges', ok, '%d digitize statements' % len(dg), node=fn)
+    # (binning spelt another way -- a helper, a comprehension -- is judged by its effect: CONFIGURATIONS has atoms whose images fall in bins of their own, and the
+    # bin-block configurations of STENCIL have as many bins along each direction as atoms)
 
 
 def membership(ctx):
@@ -509,6 +453,99 @@ def _configurations():
     return out
 
 
+def _run_nlist(ctx, vects, origin, flags, pos, cutoff, isize, dsize, kernel=None):
+    """nlist() interpreted whole on one exact configuration -> (table or None, why)"""
+    import numpy as np
+    fn = ctx.fn(NL, 'nlist')
+    mod = ctx.mod(NL)
+    helpers = {n.name: n for n in mod.body if isinstance(n, ast.FunctionDef) and n.name not in ('nlist', 'unique_rows2')}
+    V, O, P = _exact(vects), _exact(origin), _exact(pos)
+
+    class Bx(PyStub):
+        vects, origin = V, O
+
+    class At(PyStub):
+        pos = P
+
+    class Sy(PyStub):
+        box, atoms, pbc = Bx(), At(), tuple(flags)
+    Sy.natoms = len(P)
+
+    def spec_kernel(up, vp, vv, a, b, c):
+        up, vp, vv = np.asarray(up, dtype=object), np.asarray(vp, dtype=object), np.asarray(vv, dtype=object)
+        if up.shape != vp.shape or up.ndim != 2 or up.shape[1] != 3 or vv.shape != (3, 3):
+            raise WouldRaise('dmag2_c called with position tables of shapes %s and %s' % (up.shape, vp.shape))
+        out = np.empty(len(up), dtype=object)
+        for i in range(len(up)):
+            out[i] = _periodic2(up[i], vp[i], vv, (bool(a), bool(b), bool(c)))
+        return out
+
+    def unique_rows(a):
+        rows = sorted({tuple(int(x) for x in r) for r in np.asarray(a, dtype=object)})
+        out = np.empty((len(rows), 3), dtype=object)
+        for i, r in enumerate(rows):
+            out[i] = [sp.Integer(x) for x in r]
+        return out
+    ev = SymEval(module_aliases(mod), funcs=dict(helpers))
+    ev.globals = {'dmag2_c': kernel or spec_kernel, 'unique_rows2': unique_rows}
+    paths = ev.run_fn(fn, [], dict(system=Sy(), cutoff=sp.nsimplify(cutoff), initialsize=sp.Integer(isize), deltasize=sp.Integer(dsize)))
+    rets = [q for q in paths if q.done == 'return']
+    if len(paths) != 1 or len(rets) != 1:
+        return None, '%d paths, %d return' % (len(paths), len(rets))
+    return np.asarray(rets[0].ret, dtype=object), ''
+
+
+def stencil_pairs(ctx):
+    """which pairs of bins the sweep compares: nlist() interpreted whole on a block of cutoff-sized bins with one atom (or two) in each, with a distance kernel that
+    accepts every pair it is shown.  The table returned then lists exactly the pairs that were examined: they must be the pairs of atoms whose bins touch (the same
+    bin, or bins that differ by at most one along each direction), each found from one side -- however the half stencil, its early stop and its edge tests are spelt."""
+    import numpy as np
+    import itertools
+    fn = ctx.fn(NL, 'nlist')
+    loc = NL + '::nlist'
+    R = sp.Rational
+    n = 0
+    for tag, dims, per_bin in (('4 x 3 x 2 bins, one atom in each', (4, 3, 2), 1), ('3 x 3 x 3 bins, two atoms in each (the scratch list must hold 14 bins)', (3, 3, 3), 2)):
+        if per_bin == 2 and ctx.tier != 'thorough':
+            cells = [(i, j, k) for i in range(dims[0]) for j in range(dims[1]) for k in range(dims[2])]
+        else:
+            cells = [(i, j, k) for i in range(dims[0]) for j in range(dims[1]) for k in range(dims[2])]
+        pos, binof = [], []
+        for c_ in cells:
+            for a_ in range(per_bin):
+                # bins are cutoff-sized and start 1.01 cutoff below the cell: [k - 1/100, k + 99/100) holds the points k + 1/4 and k + 3/5
+                pos.append([c_[0] + (R(1, 4) if a_ == 0 else R(3, 5)), c_[1] + R(1, 4), c_[2] + (R(1, 4) if a_ == 0 else R(1, 2))])
+                binof.append(c_)
+        vects = [[dims[0], 0, 0], [0, dims[1], 0], [0, 0, dims[2]]]
+        seen_pairs = []
+
+        def accept_all(up, vp, vv, a, b, c):
+            return np.array([sp.Integer(0)] * len(np.asarray(up, dtype=object)), dtype=object)
+        try:
+            tab, why = _run_nlist(ctx, vects, [0, 0, 0], (False, False, False), pos, 1, 2, 3, kernel=accept_all)
+        except WouldRaise as e:
+            tab, why = None, 'raises: %s' % e
+        except Opaque as e:
+            raise AnalysisError('nlist on the bin-block configuration (%s): %s' % (tag, e))
+        n += 1
+        if tab is None:
+            ctx.ob('STENCIL', loc, '%s: the sweep runs to completion' % tag, False, why[:300], node=fn, key='pairs ' + tag[:20])
+            continue
+        natoms = len(pos)
+        want = {i: sorted(j for j in range(natoms) if j != i and all(abs(binof[i][k] - binof[j][k]) <= 1 for k in range(3))) for i in range(natoms)}
+        bad = []
+        for i in range(natoms):
+            cnt = int(tab[i, 0])
+            row = [int(x) for x in tab[i, 1:cnt + 1]]
+            if row != want[i]:
+                miss = sorted(set(want[i]) - set(row))
+                extra = sorted(set(row) - set(want[i]))
+                bad.append('atom %d in bin %s: not compared with atoms in bins %s; compared with atoms in far bins %s' % (i, binof[i], sorted({binof[j] for j in miss})[:4], sorted({binof[j] for j in extra})[:4]))
+        ctx.ob('STENCIL', loc, '%s, every pair shown to the distance test is accepted: the pairs examined are exactly the pairs of atoms whose bins touch (13 lower neighbour bins and the bin itself, '
+               'bins beyond the grid skipped on all six faces), each stored once' % tag, not bad, '; '.join(bad[:3])[:400], node=fn, key='pairs ' + tag[:20])
+    ctx.floor('STENCIL/pairs', n, 2)
+
+
 def configurations(ctx):
     """nlist() interpreted whole on small exact configurations: the table returned lists, for every atom, exactly the atoms closer than the cutoff (periodic distance of C02),
     ascending, each once, whatever the storage sizes.  The distance kernel is modelled by its C02 specification (MINFOLD decides that it is that)."""
@@ -657,7 +694,17 @@ def unique_rows(ctx):
     n = 0
     for tag, rows in cases:
         ev = SymEval(module_aliases(ctx.mod(NL)))
-        ev.np_override = {'numpy.unique': unique, 'numpy.dtype': lambda spec: (Void(int(spec[1])) if isinstance(spec, tuple) and len(spec) == 2 and getattr(spec[0], 'name', None) == 'numpy.void' else DT()),
+        def dtype_of(spec):
+            if isinstance(spec, tuple) and len(spec) == 2 and getattr(spec[0], 'name', None) == 'numpy.void':
+                return Void(int(spec[1]))
+            if isinstance(spec, str) and spec[:1] in ('V', 'S', 'a') and spec[1:].isdigit():      # 'V24': 24 raw bytes
+                return Void(int(spec[1:]))
+            if isinstance(spec, (DT, Void)):
+                return spec
+            if spec in ('int64', 'i8', '<i8', int) or getattr(spec, 'name', None) in ('numpy.int64', 'int'):
+                return DT()
+            raise Opaque('np.dtype(%r)' % (spec,))
+        ev.np_override = {'numpy.unique': unique, 'numpy.dtype': dtype_of,
                           'numpy.int64': DT()}
         try:
             paths = [q for q in ev.run_fn(fn, [table(rows, 3)], {}) if q.done == 'return']
@@ -804,6 +851,6 @@ def run(ctx):
                        'nlist() is also interpreted whole, in exact arithmetic, on scripted small configurations (CONFIGURATIONS): the table returned lists exactly the atoms below the cutoff. Not decided: configurations outside the scripted ones beyond what the structural rules imply.')
     from .c02 import minfold, DM
     from .. import readonly, lints
-    ctx.run_rules([lambda c: sweep_fill(c) and None, stencil, geometry, membership, insertion, configurations, unique_rows, neighborlist,
+    ctx.run_rules([lambda c: sweep_fill(c) and None, geometry, membership, insertion, configurations, stencil_pairs, unique_rows, neighborlist,
                    lambda c: minfold(c, DM, 'dmag2_c', False), lambda c: readonly.rule(c, NL, floor=2) and None,
                    lambda c: lints.c_double(c, 'C-DOUBLE', NL, floor=18), buffer_types])
